@@ -31,12 +31,28 @@ const (
 
 func withoutReservedK8sEntries(a map[string]string) map[string]string {
 	for k := range a {
-		s := strings.Split(k, "/")
-		if strings.HasSuffix(s[0], "kubernetes.io") || strings.HasSuffix(s[0], "k8s.io") {
+		if isReservedK8sKey(k) {
 			delete(a, k)
 		}
 	}
 	return a
+}
+
+// isReservedK8sKey returns true if the supplied label or annotation key is
+// reserved for Kubernetes: its prefix is kubernetes.io, k8s.io, or a subdomain
+// of either. A key without a prefix, or with a prefix that merely ends in the
+// same letters (e.g. cluster.x-k8s.io), is not reserved.
+func isReservedK8sKey(k string) bool {
+	prefix, _, ok := strings.Cut(k, "/")
+	if !ok {
+		return false
+	}
+	for _, d := range []string{"kubernetes.io", "k8s.io"} {
+		if prefix == d || strings.HasSuffix(prefix, "."+d) {
+			return true
+		}
+	}
+	return false
 }
 
 func withoutKeys(in map[string]any, keys ...string) map[string]any {
